@@ -27,11 +27,13 @@ Qed.
 Lemma module_restart_items sc now m : forall l s acc,
   Forall (fun b => item_ok sc (IBrk b)) acc ->
   Forall (fun b => item_ok sc (IBrk b))
-    (snd (fold_left (fun acc stage => let '(s1, b) := at_sim_start now m (cfg sc m) false stage (fst acc) in (s1, snd acc ++ [b]))
+    (snd (fold_left (fun acc stage => if dead (fst acc) then acc else
+                       let '(s1, b) := at_sim_start now m (cfg sc m) false stage (fst acc) in (s1, snd acc ++ [b]))
                     l (s, acc))).
 Proof.
   induction l as [|st l IH]; intros s acc Hacc; cbn [fold_left]; [exact Hacc|].
-  unfold at_sim_start at 2. cbn [fst snd].
+  cbn [fst snd]. destruct (dead s); [apply IH, Hacc|].
+  change (at_sim_start now m (cfg sc m) false st s) with (run_bracket now m (cfg sc m) false (KStart st) s).
   pose proof (run_bracket_item sc now m false (KStart st) s) as Hb.
   destruct (run_bracket now m (cfg sc m) false (KStart st) s) as [s1 b]. cbn [snd] in Hb.
   apply IH. apply Forall_app; split; [exact Hacc|constructor; [exact Hb|constructor]].
@@ -59,7 +61,7 @@ Qed.
 Lemma start_one_items sc stage m acc : items_ok sc (snd acc) -> items_ok sc (snd (start_one sc stage m acc)).
 Proof.
   intros H. unfold start_one. destruct acc as [w its]. cbn [snd] in H.
-  destruct (stage <? h_stages (m_handler (cfg sc m))); [|exact H].
+  destruct ((stage <? h_stages (m_handler (cfg sc m))) && active (mstate w m)); [|exact H].
   destruct (activate 0 (mstate w m)) as [woken ms]. unfold at_sim_start.
   pose proof (run_bracket_item sc 0 m woken (KStart stage) (es0 (w_bud w))) as Hb.
   destruct (run_bracket 0 m (cfg sc m) woken (KStart stage) (es0 (w_bud w))) as [s b]. cbn [snd] in Hb.
